@@ -52,23 +52,23 @@ func verifDir() string {
 }
 
 type runResult struct {
-	Property   string        `json:"property"`
-	Obls       []*Obligation `json:"obligations"`
-	Notes      []string      `json:"notes"`
-	LoadError  string        `json:"load_error,omitempty"`
+	Property  string        `json:"property"`
+	Obls      []*Obligation `json:"obligations"`
+	Notes     []string      `json:"notes"`
+	LoadError string        `json:"load_error,omitempty"`
 }
 
 func main() {
 	var (
-		prop     = flag.String("property", "", "property id (C01..C20)")
-		tier     = flag.String("tier", "quick", "quick|thorough")
-		repo     = flag.String("repo", "/repo", "repository root")
-		replay   = flag.String("replay", "", "replay file: re-evaluate and show only the obligations listed there")
-		variant  = flag.String("variant", "", "internal: JSON file {file: content} overlay (self-test variants)")
-		jsonOut  = flag.String("json-out", "", "internal: write obligations as JSON here instead of evidence")
-		genMan   = flag.Bool("gen-manifest", false, "write MANIFEST.json from the rule registry")
-		list     = flag.Bool("list", false, "list properties and rules")
-		verbose  = flag.Bool("v", false, "print every obligation")
+		prop    = flag.String("property", "", "property id (C01..C20)")
+		tier    = flag.String("tier", "quick", "quick|thorough")
+		repo    = flag.String("repo", "/repo", "repository root")
+		replay  = flag.String("replay", "", "replay file: re-evaluate and show only the obligations listed there")
+		variant = flag.String("variant", "", "internal: JSON file {file: content} overlay (self-test variants)")
+		jsonOut = flag.String("json-out", "", "internal: write obligations as JSON here instead of evidence")
+		genMan  = flag.Bool("gen-manifest", false, "write MANIFEST.json from the rule registry")
+		list    = flag.Bool("list", false, "list properties and rules")
+		verbose = flag.Bool("v", false, "print every obligation")
 	)
 	flag.Parse()
 	vdir := verifDir()
